@@ -68,7 +68,14 @@ pub fn meta(prop: &str) -> Meta {
                 "the simulated socket follows Linux TCP semantics as listed in DESIGN.md 2.2",
                 "the independent frame codec in the harness encodes the REPE v1 layout correctly",
             ],
-            expected_probes: &[],
+            expected_probes: match prop {
+                "C15" => &["exit_with_offreader_handler_parked", "exit_from_inside_inline_handler", "exit_with_outbound_backlog", "parked_handler_saw_cancellation", "connect_notifies_preceded_first_response"],
+                "C16" => &["saturation_reached", "slot_refilled_after_exit", "handler_panicked"],
+                "C17" => &["oversized_response_replaced", "oversized_notify_dropped", "oversized_client_message_refused", "response_at_the_boundary_delivered"],
+                "C05" => &["torn_frame_on_wire", "multi_frame_stream"],
+                "C06" => &["calls_in_flight_at_fault", "cancel_landed_mid_send", "late_response_sent"],
+                _ => &[],
+            },
         },
     }
 }
